@@ -70,6 +70,8 @@ Definition w05 (c : C05.Model.vcode) : wset :=
   | C05.Model.VCatN => wlist [B "n"]
   | C05.Model.VCountSimilar _ => wlist [B "count"]  (* reads the group-by field *)
   | C05.Model.VLabel _ | C05.Model.VRegularize => wall   (* positional renaming / whole-record reordering *)
+  | C05.Model.VFillEmpty _ | C05.Model.VFillDownAll _ => wall   (* fill-empty / fill-down --all may assign any field's value *)
+  | C05.Model.VCatNG _ => wlist [B "n"]             (* cat -n -g k reads k *)
   | _ => wnone                                        (* cat tac head tail sort -f sort -nf/-nr nothing: read only *)
   end.
 
